@@ -77,7 +77,10 @@ func VerifC01GenMutate() {
 	}
 	var m map[string]any
 	var err error
-	switch vrtChoice("via", vrtParam("VIA", 3)) {
+	switch vrtChoice("via", vrtParam("VIA", 4)) {
+	case 3: // the mutated document is the file a service of the main file extends (loaded without schema validation)
+		vrtYamlFile(vrtRoot()+"/w/other/base.yaml", doc)
+		m, err = tcLoad(nil, opts, map[string]any{"services": map[string]any{"web": map[string]any{"extends": map[string]any{"file": "other/base.yaml", "service": genSvc}}}})
 	case 0:
 		m, err = tcLoad(nil, opts, doc)
 	case 1: // the mutated document is a main file that also includes a valid file
